@@ -1086,6 +1086,22 @@ func (a *fnAn) callResult(call *ssa.Call, idx int, typ types.Type) AV {
 	return a.callResultOf(call, idx, typ, a.t.ret)
 }
 
+// callResultOKOnly: the ok-exit summary of the call's result idx, or nil when some
+// possible callee has none.
+func (a *fnAn) callResultOKOnly(call *ssa.Call, idx int, typ types.Type) *AV {
+	callees := a.t.c.P.Callees(call)
+	if len(callees) == 0 {
+		return nil
+	}
+	for _, g := range callees {
+		if s, ok := a.t.retOK[core.Origin(g)]; !ok || idx >= len(s) {
+			return nil
+		}
+	}
+	av := a.callResultOf(call, idx, typ, a.t.retOK)
+	return &av
+}
+
 func (a *fnAn) callResultOf(call *ssa.Call, idx int, typ types.Type, sums map[*ssa.Function][]AV) AV {
 	tr := typeRange(typ, a.sizes)
 	if tr == nil {
@@ -1794,7 +1810,29 @@ func (a *fnAn) instr(in ssa.Instruction, st tstate, collect bool) {
 				av.UB = nil
 				a.retAV[i] = joinAV(a.retAV[i], av)
 				if okExit {
-					a.retOK[i] = joinAV(a.retOK[i], av)
+					// "n, err := f(); return n, err": when err is nil here, n is what f returns on its
+					// own nil-error exits
+					okv := av
+					if ee, ok := x.Results[len(x.Results)-1].(*ssa.Extract); ok {
+						if re, ok := r.(*ssa.Extract); ok && re.Tuple == ee.Tuple {
+							if call, ok := re.Tuple.(*ssa.Call); ok {
+								if sum := a.callResultOKOnly(call, re.Index, re.Type()); sum != nil {
+									all := av.all()
+									okv.T, okv.P = nil, nil
+									if sum.T != nil {
+										okv.T = meet(sum.T, all)
+									}
+									if sum.P != nil {
+										okv.P = meet(sum.P, all)
+									}
+									if okv.T == nil && okv.P == nil {
+										okv = av
+									}
+								}
+							}
+						}
+					}
+					a.retOK[i] = joinAV(a.retOK[i], okv)
 				}
 			}
 		}
